@@ -53,6 +53,11 @@ pub struct Config {
     pub inflight_file: Option<String>,
     /// where the JSON report goes (the hang watchdog writes it before exiting)
     pub out_file: Option<String>,
+    /// stack size of the worker threads in MiB (default 256: a harness thread must not overflow where a
+    /// user's thread would not; the small-stack stage sets the size of an ordinary thread instead)
+    pub stack_mib: usize,
+    /// run only the families whose name starts with this prefix
+    pub only_prefix: Option<String>,
 }
 
 impl Config {
@@ -534,6 +539,11 @@ pub fn run(cfg: &Config, families: &[Box<dyn Family>]) -> Outcome {
                 continue;
             }
         }
+        if let Some(p) = &cfg.only_prefix {
+            if !name.starts_with(p.as_str()) {
+                continue;
+            }
+        }
         let fstart = Instant::now();
         let len = fam.len(cfg);
         let next = AtomicU64::new(0);
@@ -551,7 +561,7 @@ pub fn run(cfg: &Config, families: &[Box<dyn Family>]) -> Outcome {
                 let budget_hit = &budget_hit;
                 // a generous stack: the code under test recurses, and a harness thread must never
                 // overflow where a user's main thread (8 MiB) would not
-                let builder = std::thread::Builder::new().stack_size(256 << 20).name(format!("worker-{}", worker));
+                let builder = std::thread::Builder::new().stack_size(cfg.stack_mib.max(1) << 20).name(format!("worker-{}", worker));
                 let _ = builder.spawn_scoped(s, move || {
                     let w = (worker % SLOTS) * WORDS;
                     register_worker_clock(worker % SLOTS);
